@@ -86,8 +86,6 @@ func NewConnectionHandler(
 		smeError:     nil,
 	}
 
-	ship.handshakeTimerStopChan = make(chan struct{})
-
 	if dataHandler != nil {
 		dataHandler.InitDataProcessing(ship)
 	}
